@@ -82,6 +82,12 @@ def crc_zero_prefix_tcs(rng, want=6):
 
 def events(ctx):
     rng = ctx.rng
+    from ..core import source_constants
+    from ..ops_ecss import mk_tc as _mk
+    for c in source_constants():
+        raw = list(bytes(_mk({"apid": 0x2CF, "seq": 0x3C1D, "ack": 15, "service": 17, "subservice": 1, "source": 7, "data": [1, 2, 3]}).pack()))
+        yield record("tc.unpack", {"octets": list(c) + raw})
+        yield record("tc.unpack", {"octets": list(c) + raw[len(c):]})
     for p in crc_zero_prefix_tcs(rng):
         for via in ("ctor", "setter", "bytearray"):
             yield record("tc.rt", {"p": p, "sfx": [], "via": via})
